@@ -264,6 +264,13 @@ def task_bus(t):
 
 def build_tasks(tier):
     tasks = []
+    # the small, targeted sets first (limit ladders, continuations of special names): they survive a deadline cut
+    lad0 = ladder_strings()
+    for i in range(0, len(lad0), 40):
+        tasks.append((task_ladders, lad0[i:i + 40]))
+    for kind in NAME_KINDS:
+        for p in SPECIAL_PREFIXES:
+            tasks.append((task_valenum, (kind, NAME_ALPHA, len(p) + 2, p)))
     name_len = 6 if tier == 'quick' else 7
     for kind in NAME_KINDS:
         tasks.append((task_valenum, (kind, NAME_ALPHA, 1, b'')))
@@ -283,12 +290,7 @@ def build_tasks(tier):
     for a in UTF8_ALPHA:
         tasks.append((task_valenum, ('utf8', UTF8_ALPHA, 4, a)))
         tasks.append((task_valenum, ('utf8', UTF8_ALPHA, 4 if tier == 'quick' else 5, b'a' + a)))
-    for kind in NAME_KINDS:
-        for p in SPECIAL_PREFIXES:
-            tasks.append((task_valenum, (kind, NAME_ALPHA, len(p) + 2, p)))
     lad = ladder_strings()
-    for i in range(0, len(lad), 40):
-        tasks.append((task_ladders, lad[i:i + 40]))
     # messages: all strings <= 3 (quick) / 4 over the class alphabet per kind + ladders
     mlen = 3 if tier == 'quick' else 4
     for kind in NAME_KINDS:
